@@ -1,7 +1,7 @@
 SPECIFICATION StSpec
 CONSTANTS MaxIn = 0 MaxOut = 0 MaxFeed = 1 MaxGrant = 1
- Family = "lzip" Rederive = TRUE
- Inputs <- MCInputs
+ Family = "lzip" Rederive = TRUE Stuck = FALSE
+ Inputs <- SmallInputs
  InnerRet <- LazyRet
 INVARIANTS DocumentedOnly NoInternal
 PROPERTY StarveLive
